@@ -84,18 +84,6 @@ func objOf(info *types.Info, e ast.Expr) types.Object {
 	return nil
 }
 
-// mentions reports whether expression e mentions obj.
-func mentions(info *types.Info, e ast.Node, obj types.Object) bool {
-	found := false
-	ast.Inspect(e, func(n ast.Node) bool {
-		if id, ok := n.(*ast.Ident); ok && (info.Uses[id] == obj || info.Defs[id] == obj) {
-			found = true
-		}
-		return !found
-	})
-	return found
-}
-
 // typeName gives a short name for a type: Named → Name, *Named → *Name.
 func typeName(t types.Type) string {
 	switch t := t.(type) {
